@@ -66,6 +66,10 @@ namespace Givaro {
     template <class Domain>
     inline typename Poly1Dom<Domain,Dense>::Rep& Poly1Dom<Domain,Dense>::gcd ( Rep& F, Rep& S0, Rep& T0, const Rep& A, const Rep& B) const
     {
+        if (&F == &A || &F == &B || &S0 == &A || &S0 == &B || &T0 == &A || &T0 == &B) { // an output may be the same object as A or B
+            Rep At, Bt; assign(At, A); assign(Bt, B);
+            return gcd(F, S0, T0, At, Bt);
+        }
         Type_t r0, r1, tt; _domain.init(r0);_domain.init(r1);_domain.init(tt);
         Rep G; init(G);
         Degree degF, degG;
@@ -229,6 +233,7 @@ namespace Givaro {
     template <class Domain>
     inline typename Poly1Dom<Domain,Dense>::Rep& Poly1Dom<Domain,Dense>::lcm ( Rep& F, const Rep& A, const Rep& B) const
     {
+        if (&F == &A || &F == &B) { Rep T; lcm(T, A, B); return assign(F, T); } // F may be the same object as A or B
         //     write(write(std::cerr << "A: ", A) << ", B: ", B) << std::endl;
 
         Rep G, S0, T0;
